@@ -7,7 +7,7 @@ from .. import core
 class C01(Property):
     id = "C01"
     lean_module = "RosuModel.Props.C01Full"
-    theorem_modules = ['RosuModel.Props.C01', 'RosuModel.Props.C01Ieee', 'RosuModel.Props.C01IeeeWitness']   # files whose top-level theorems are all audited
+    theorem_modules = ['RosuModel.Props.C01', 'RosuModel.Props.C01Ieee', 'RosuModel.Props.C01IeeeWitness', 'RosuModel.Props.C01IeeeFuel']   # files whose top-level theorems are all audited
     namespace = "Rosu.C01"
     design_ref = "5.1"
     required_theorems = ["ofBytes_no_fault", "decode_bytes_never_errs", "decode_err_only_from_reader", "nodes_bounded",
